@@ -103,6 +103,12 @@ pub mod mm {
     }
     #[inline]
     pub fn acos(x: f32) -> f32 {
+        if abs(x) < 1e-12 {
+            // Micromath evaluates atan(sqrt(1 - x²) / x); for |x| below
+            // about 1e-19 the quotient is too large for its atan, which
+            // returns NaN. This close to zero acos(x) is π/2 - x.
+            return core::f32::consts::FRAC_PI_2 - x;
+        }
         mm::acos(x)
     }
     #[inline]
